@@ -186,6 +186,14 @@ func (b *Bed) CheckLog(l *Ledger, only string) (sig, msg string) {
 				return "log:ack-of-unstored-op", fmt.Sprintf("datatype %s(%s): client %s is acknowledged up to seq %d but only its operations up to seq %d are stored", dt.Key, dt.DUID, cuid, sc.CP.Cseq, perClient[cuid])
 			}
 		}
+		for cuid, sc := range dt.ROClients {
+			if sc == nil || sc.CP == nil {
+				continue
+			}
+			if sc.CP.Sseq > n {
+				return "log:checkpoint-beyond-log", fmt.Sprintf("datatype %s(%s): read-only client %s has checkpoint sseq %d, only %d operations are stored", dt.Key, dt.DUID, cuid, sc.CP.Sseq, n)
+			}
+		}
 	}
 	return "", ""
 }
